@@ -22,6 +22,9 @@ type c17LookupCase struct {
 }
 
 func c17KeyType(base string) *dm.Type {
+	if base == "decimal64" {
+		return &dm.Type{Base: "decimal64", FD: 8}
+	}
 	if base == "enumeration" {
 		return &dm.Type{Base: "enumeration", Enums: []dm.EnumDef{{Name: "red", Value: 1}, {Name: "green", Value: 3}, {Name: "blue", Value: 4}}}
 	}
@@ -38,6 +41,8 @@ func c17LookupGen(t *rapid.T) c17LookupCase {
 		bases = []string{"string", "int32", "int64"} // the key types the library itself creates maps for
 	case "reflect-struct", "node-struct":
 		bases = []string{"int8", "int32", "int64", "uint16", "uint64", "string", "boolean"}
+	case "rs", "reflect-slice", "node-slice":
+		bases = append(bases, "decimal64")
 	}
 	for i := 0; i < nk; i++ {
 		c.KeyTypes = append(c.KeyTypes, rapid.SampledFrom(bases).Draw(t, "keytype"))
@@ -51,6 +56,9 @@ func c17LookupGen(t *rapid.T) c17LookupCase {
 				tuple[j] = c.Entries[rapid.IntRange(0, len(c.Entries)-1).Draw(t, "from")][j]
 			} else if c.KeyTypes[j] == "string" {
 				tuple[j] = rapid.SampledFrom([]string{"a", "b", "ab", "B", "10", "9", "z", "é", "a b", "a,b"}).Draw(t, "strkey")
+			} else if c.KeyTypes[j] == "decimal64" {
+				// neighbours that differ in the eighth fraction digit only
+				tuple[j] = rapid.SampledFrom([]string{"1.00000011", "1.00000012", "1.00000013", "1.0000001", "1", "-1.00000011", "0.00000001", "0", "2.5"}).Draw(t, "deckey")
 			} else {
 				tuple[j] = dm.GenValue(t, c17KeyType(c.KeyTypes[j]), "key", true)
 			}
@@ -70,6 +78,8 @@ func c17LookupGen(t *rapid.T) c17LookupCase {
 			if rapid.IntRange(0, 3).Draw(t, "fresh") == 0 {
 				if c.KeyTypes[j] == "string" {
 					tuple[j] = rapid.SampledFrom([]string{"a", "b", "c", "nope"}).Draw(t, "strkey")
+				} else if c.KeyTypes[j] == "decimal64" {
+					tuple[j] = rapid.SampledFrom([]string{"1.00000011", "1.00000012", "1.00000013", "1.00000014", "1", "0.00000002"}).Draw(t, "deckey")
 				} else {
 					tuple[j] = dm.GenValue(t, c17KeyType(c.KeyTypes[j]), "key", true)
 				}
@@ -165,7 +175,7 @@ func c17LookupRun(c c17LookupCase, o *hx.Obs) {
 
 var c17Lookup = hx.Register(&hx.Check[c17LookupCase]{
 	Name: "c17-list-lookup",
-	Rule: "a list with 1-3 key leaves (all integer widths, string, boolean, enumeration) and 1-8 entries whose key components are boundary values and are shared between entries with probability 1/2, held by the reference store, slice- and map-backed Reflect and Node stores and struct-backed stores; every entry is looked up by its key and so are 1-6 tuples recombined from components that occur (mostly absent): Find returns exactly the entry whose key leaves equal the requested key, and nothing for an absent key; non-trivial = a compound key with a component shared between entries, or >= 3 entries",
+	Rule: "a list with 1-3 key leaves (all integer widths, string, boolean, enumeration, decimal64 with eight fraction digits and keys that differ in the last one) and 1-8 entries whose key components are boundary values and are shared between entries with probability 1/2, held by the reference store, slice- and map-backed Reflect and Node stores and struct-backed stores; every entry is looked up by its key and so are 1-6 tuples recombined from components that occur (mostly absent): Find returns exactly the entry whose key leaves equal the requested key, and nothing for an absent key; non-trivial = a compound key with a component shared between entries, or >= 3 entries",
 	Gen:  c17LookupGen,
 	Run:  c17LookupRun,
 })
